@@ -10,6 +10,8 @@ use crate::filter::error::Result;
 use crate::filter::html_body_action::body_append::BodyAppend;
 use crate::filter::html_body_action::body_prepend::BodyPrepend;
 use crate::filter::html_body_action::body_replace::BodyReplace;
+use html5ever::tendril::TendrilSink;
+use html5ever::{LocalName, QualName, driver, namespace_url, ns};
 use std::fmt::Debug;
 
 #[derive(Debug)]
@@ -100,6 +102,21 @@ fn selector_depth(expression: &str) -> usize {
     max_depth
 }
 
+/// Name of the element a fragment has to be parsed in for the start tag of its first element to be kept
+fn fragment_context(data: &str) -> &'static str {
+    let name = data.trim_start().strip_prefix('<').unwrap_or_default();
+    let name = name.chars().take_while(char::is_ascii_alphanumeric).collect::<String>().to_ascii_lowercase();
+
+    match name.as_str() {
+        "td" | "th" => "tr",
+        "tr" => "tbody",
+        "tbody" | "thead" | "tfoot" | "caption" | "colgroup" => "table",
+        "col" => "colgroup",
+        "head" | "body" => "html",
+        _ => "body",
+    }
+}
+
 pub fn evaluate(data: &str, expression: &str) -> bool {
     if selector_depth(expression) > MAX_SELECTOR_DEPTH {
         log::error!("cannot parse selector {}: too many nested parentheses", expression);
@@ -116,7 +133,10 @@ pub fn evaluate(data: &str, expression: &str) -> bool {
         }
     };
 
-    let document = scraper::Html::parse_fragment(data);
+    // Parsed as a child of `body` some elements would lose their own start tag (a cell outside a row, `body` itself ...)
+    let context = QualName::new(None, ns!(html), LocalName::from(fragment_context(data)));
+    let sink = scraper::HtmlTreeSink::new(scraper::Html::new_fragment());
+    let document = driver::parse_fragment(sink, Default::default(), context, Vec::new()).one(data);
     let mut select = document.select(&selector);
 
     select.next().is_some()
